@@ -7,6 +7,10 @@ backwards, the window shifted by one row, the window under another unit), with o
 operand, every parent, every unit object and the registry rows are snapshotted; after the call - returned or raised - the obligations are term-for-term
 equalities (z3, under the path condition, tol=0) between the snapshot and what the objects hold now.
 
+Copy routes are walked in every spelling of their optional arguments (order=, copy=, memo, units=None, equivalence=None; positional
+and keyword) and each is followed by an in-place edit of what it returned: the original must not move. Sequences of quantities
+stored by one call (item assignment, np.put / putmask / place) carry each fault at every position of the sequence.
+
 Histories: the same disciplines are applied to every step of two- and three-call sequences run inside ONE path (refused /
 returned in-place call, refused / returned copying call, on the same or on another array), so that whatever a call leaves
 behind in unyt (a cache entry, a shared helper object, a switch a raising call did not reset) meets the next call.
@@ -43,6 +47,14 @@ MANIFEST = dict(
           "out=, array functions, item assignment, copies and Unit arithmetic on one operand set) run inside one path without any "
           "reset in between, each step held to its frame rule, with the results of earlier steps, the module-level physical "
           "constants and the registry's unit system as bystanders; read-only targets are one more injected fault. "
+          "Two further discrete axes: the ARGUMENT SPELLING of the copying calls (order= of copy / np.copy / np.array / astype / "
+          "flatten in each of its values, copy=True, deepcopy memo, units=None, equivalence=None; positionally and by keyword; "
+          "identity conversions to / in_units / in_base / in_cgs / to_equivalent on a source already in the target unit; the "
+          "unit-stripping copies to_ndarray / value / v / to_value()), each followed by an in-place edit of the returned object "
+          "under which the original and its parent must keep their exact terms; and SEQUENCES of quantities stored by one call "
+          "(list / tuple, one entry per slot, each entry in its own symbolic-scale unit; item assignment under 9 index kinds, "
+          "np.put / putmask / place) with every fault injected at EVERY position of the sequence, so that a refusal after the "
+          "earlier slots were written is a counter-model of 'in-place call raised: numbers of the target unchanged'. "
           "Counterexamples are replayed on plain unyt."),
     design="DESIGN.md section 4 C18",
     technique="symbolic execution of the real Python code over z3 real terms; frame obligations (term equality under the path condition) decided by z3; counterexample replay")
@@ -74,7 +86,19 @@ EXPLANATION = (
     "object, dtype, shape and class - so an intermediate result parked in out= before the operand underneath was read (a guard by "
     "object identity instead of memory overlap), or a result written into a contiguous temporary of a strided / transposed out= "
     "while the caller's buffer is only relabelled, is a counter-model of 'target holds the numbers of the copying twin'. With "
-    "where=[True, False] the selected elements must equal the twin's, the others must be exactly their old terms."
+    "where=[True, False] the selected elements must equal the twin's, the others must be exactly their old terms. "
+    "Copy routes and their argument spellings: a route that answers one spelling of one argument with a view of its input "
+    "(np.asfortranarray / np.asarray in place of np.copy because 'the layout is already the one asked for', an identity conversion "
+    "that returns self) gives the right numbers and leaves its input alone, so the copying discipline alone cannot see it: every "
+    "copy case therefore continues with an in-place call on the returned object (*=, out=, item assignment, fill, convert_to_units / "
+    "base) inside the same path, and z3 decides that the original and the parent under it still hold their snapshot terms while "
+    "the copy agrees with its copying twin; the sources are 1-d windows (C- and Fortran-contiguous at once), C-ordered and "
+    "Fortran-ordered 2x2 windows, strided windows and 0-d quantities. Branches taken only for real float buffers (dtype.kind tests) "
+    "are walked by the same cases on concrete float64/float32 data (ground obligations, counted as such). "
+    "Sequences: __setitem__ / np.put / np.putmask / np.place with a list or tuple of quantities - each entry element 1 of its own "
+    "4-element parent, in a unit with its own symbolic scale (or offset) - are run with the fault (other dimension, bare number, "
+    "dimensionless entry, prefixed other dimension) at position 0, 1 and 2; raised -> target, parent, every entry and every entry's "
+    "parent hold their snapshot terms; returned -> every slot within the 1e-6 band of entry.in_units(array unit) computed beforehand."
 )
 BOUNDS = {
     "quick": "conversions x 5 entry points x {valid plain/prefixed/affine/compound/table/EM/identity, dimension mismatch, unknown unit, "
@@ -128,7 +152,17 @@ BOUNDS = {
              "add.accumulate and cumsum {same window, reversed, shifted, relabelled}; the other reductions: out= a row of the input; "
              "np.power(out=view of a); modf/divmod/frexp/copysign/isfinite on doubles {same window, shifted}; the statement form "
              "parent[window] op= b for += -= %= (and *= /= //= by a bare number); history letter np.add(x, y, out=x[...]). "
-             "WHERE=: ufuncs with out= and where=[True, False]: out fresh and out= a second view of operand 0 for every configuration",
+             "WHERE=: ufuncs with out= and where=[True, False]: out fresh and out= a second view of operand 0 for every configuration. "
+             "ARGUMENT SPELLING: 5 more spellings of to / in_units / to_value (units=, equivalence None positionally / by keyword) and 3 of "
+             "convert_to_units x 7 unit pairs/faults; in_base(unit_system=) / in_base(None) / in_base(UnitSystem object) and their "
+             "in-place twins x 8 sources; 68 copy-route spellings (order C/F/A/K positional and keyword for copy, np.copy, np.array, "
+             "astype, flatten; copy=True; deepcopy memo; to_ndarray / value / v / to_value() / to_value(None) / to_value(units=None); "
+             "identity to / in_units / in_base / in_mks / in_cgs / to_equivalent; np.repeat / np.tile) x {1-d window, one of "
+             "Fortran-ordered / C-ordered 2x2 window} x a rotating in-place edit of the copy (8 edits), + every route once on a real "
+             "float64 buffer (concrete doubles, ground obligations). "
+             "SEQUENCES: item assignment of a list/tuple of quantities: 5 unit patterns x 2 containers x 9 index kinds (2 of 5 in quick), "
+             "rows of a 2x2 window; 4 faults x position 0/1/2 x index kind x container (1 of 3 in quick) + one non-contiguous target each; "
+             "np.put / np.putmask / np.place with the same sequences: valid x 2, dimension mismatch x 3 positions",
     "thorough": "the same catalogue with every op x variant x out= form, array operands and scalar operands (element 1 of a 4-element "
                 "parent), integer buffers int8/uint8/int16/uint16/int32/int64; histories: thermal 20 x 11 x both array patterns, the "
                 "other 9 equivalences 9 x 7 x both patterns, equivalence pairs 3 x 6, three-call words for thermal/sound_speed/spectral "
@@ -138,9 +172,14 @@ BOUNDS = {
                 "int8..int64 x {strided, reversed}; out= aliasing: all 10 second-view forms per ufunc configuration and 5 (+3 on "
                 "operand 1) per array function, operands strided x {none, fresh, the input, second view} and reversed x {none, the "
                 "input, shifted}; where= x {fresh, the input, second view, strided, other unit}; statement form also on strided and "
-                "2x2 every-second-column windows",
+                "2x2 every-second-column windows; argument spelling: every spelling x every unit pair x scalar / array / one "
+                "non-contiguous layout, copy spellings x 7 sources (1-d, C / Fortran 2x2, strided, every second column, reversed, 0-d) + "
+                "float64 and float32 buffers; sequences: the full product unit pattern x container x index kind, every fault x position "
+                "x index kind x container, np.put / putmask / place x 4 faults x 3 positions",
 }
-OUTSIDE = ("IEEE rounding/overflow/nan (A1); complex payloads; histories longer than three calls, histories that cross the "
+OUTSIDE = ("IEEE rounding/overflow/nan (A1); complex payloads; sequences longer than three entries, nested sequences and sequences "
+           "handed to np.copyto / fill (unyt stores their raw numbers: C01's subject); astype(copy=False) and the as*array functions "
+           "(documented to return their input when they can); order= spellings of routes other than the copy routes; histories longer than three calls, histories that cross the "
            "equivalence / plain-catalogue operand sets, and state that survives a path only in a worker process (every path starts "
            "from whatever the previous path of that worker left in module-level objects other than the lru_caches: on the unchanged "
            "tree nothing; a history therefore always contains its own first call); out= windows that lie on memory of an input of ANOTHER shape "
@@ -671,7 +710,16 @@ CONV_PAIRS = [
     ("dim", "xa", "xs", "dimension mismatch"), ("dimT", "xta", "xa", "dimension mismatch"),
     ("unknown", "xa", "xnope", "unknown unit"), ("junk", "xa", "xb**", "unparsable unit"),
 ]
-CONV_COPY = {"to": lambda q, u: q.to(u), "in_units": lambda q, u: q.in_units(u), "to_value": lambda q, u: q.to_value(u)}
+CONV_COPY = {"to": lambda q, u: q.to(u), "in_units": lambda q, u: q.in_units(u), "to_value": lambda q, u: q.to_value(u),
+             # the argument-spelling axis: the unit by keyword, the optional equivalence spelled out as None (positionally / by keyword)
+             "to(units=)": lambda q, u: q.to(units=u), "to(u,None)": lambda q, u: q.to(u, None),
+             "in_units(units=,equivalence=None)": lambda q, u: q.in_units(units=u, equivalence=None),
+             "to_value(units=)": lambda q, u: q.to_value(units=u), "to_value(u,None)": lambda q, u: q.to_value(u, None)}
+CONV_SPELLINGS = ["to(units=)", "to(u,None)", "in_units(units=,equivalence=None)", "to_value(units=)", "to_value(u,None)"]
+CONV_INPLACE = {"convert_to_units": lambda q, u: q.convert_to_units(u),
+                "convert_to_units(units=)": lambda q, u: q.convert_to_units(units=u),
+                "convert_to_units(u,None)": lambda q, u: q.convert_to_units(u, None),
+                "convert_to_units(u,equivalence=None)": lambda q, u: q.convert_to_units(u, equivalence=None)}
 BASE_SRC = [("plain", "xa", None), ("affine", "xta", None), ("compound", "xm*xa**2/xs**2", None), ("table", "erg/s", None),
             ("emA", "A", None), ("emG", "G", None), ("irreducible", "A**2", "irreducible unit"),
             ("irreducible2", "A*statA", "irreducible unit")]
@@ -717,8 +765,8 @@ def conv_case(entry, tag, src, dst, fault, shape, layout="c"):
                 E.copying(lambda: q.to(r[1]))
             else:
                 E.copying(lambda: q.to(dst))
-        elif entry == "convert_to_units":
-            E.inplace("q", lambda: q.convert_to_units(dst), lambda: q.in_units(dst))
+        elif entry in CONV_INPLACE:
+            E.inplace("q", lambda: CONV_INPLACE[entry](q, dst), lambda: q.in_units(dst))
         else:
             raise KeyError(entry)
     return Case(_cid("conv", entry, tag, fault or "valid", "shape" + _shape_tag(shape) + _lay_tag(layout)), h)
@@ -727,7 +775,11 @@ def conv_case(entry, tag, src, dst, fault, shape, layout="c"):
 BASE_COPY = {"in_base(mks)": lambda q: q.in_base("mks"), "in_base(cgs)": lambda q: q.in_base("cgs"), "in_base()": lambda q: q.in_base(),
              "in_cgs": lambda q: q.in_cgs(), "in_mks": lambda q: q.in_mks(), "in_base(galactic)": lambda q: q.in_base("galactic"),
              "in_base(xnope)": lambda q: q.in_base("xnope")}
-BASE_INPLACE = {"convert_to_base(mks)": (lambda q: q.convert_to_base("mks"), "in_base(mks)"),
+BASE_COPY.update({"in_base(unit_system=cgs)": lambda q: q.in_base(unit_system="cgs"), "in_base(None)": lambda q: q.in_base(None),
+                  "in_base(UnitSystem)": lambda q: q.in_base(__import__("unyt").unit_systems.cgs_unit_system)})
+BASE_INPLACE = {"convert_to_base(unit_system=cgs)": (lambda q: q.convert_to_base(unit_system="cgs"), "in_base(unit_system=cgs)"),
+                "convert_to_base(None)": (lambda q: q.convert_to_base(None), "in_base(None)"),
+                "convert_to_base(mks)": (lambda q: q.convert_to_base("mks"), "in_base(mks)"),
                 "convert_to_base(cgs)": (lambda q: q.convert_to_base("cgs"), "in_base(cgs)"),
                 "convert_to_base()": (lambda q: q.convert_to_base(), "in_base()"),
                 "convert_to_cgs": (lambda q: q.convert_to_cgs(), "in_cgs"),
@@ -1327,6 +1379,69 @@ def setitem_case(tag, ua, vspec, fault, iname, layout="c"):
     return Case(_cid("setitem", tag, f"index={iname}", (fault or "valid") + _lay_tag(layout)), h)
 
 
+# ---- SEQUENCES of quantities written into several slots by one call: the value is a list / tuple (one entry per slot, each entry a
+# quantity that is itself an element of a larger array, in its own unit), the fault is injected at EVERY position of the sequence
+# (first, middle, last): a refusal that comes only after the entries before the bad one were stored leaves a half-written target.
+# index -> (index expression on a 3-element window, number of slots it selects)
+SEQ_INDEXES = {"slice": (slice(0, 3), 3), "all": (slice(None), 3), "ellipsis": (Ellipsis, 3), "fancy": ([0, 1, 2], 3),
+               "mask": (np.array([True, True, True]), 3), "rev": (slice(None, None, -1), 3), "part": (slice(1, 3), 2),
+               "step": (slice(0, 3, 2), 2), "fancy2": ([2, 0], 2)}
+# unit pattern of the (valid) entries: (unit of the array, unit per slot)
+SEQ_UNITS = {"same": ("xa", ["xa", "xa", "xa"]), "lead": ("xa", ["xb", "xa", "xa"]), "scaled": ("xa", ["xb", "xa", "kxb"]),
+             "table": ("m", ["km", "cm", "mm"]), "affine": ("xta", ["xta", "xtb", "xta"])}
+# fault -> what replaces the entry at the fault position
+SEQ_FAULTS = {"dimension mismatch": "xs", "bare number": None, "dimensionless entry": "dimensionless", "other dimension prefixed": "kxm"}
+SEQ_CONTAINERS = {"list": list, "tuple": tuple}
+# call forms that store a sequence into several slots (index kinds other than 'all' only for item assignment)
+SEQ_CALLS = {
+    "setitem": lambda a, idx, v: operator.setitem(a, idx, v),
+    "np.put": lambda a, idx, v: np.put(a, list(range(len(v))), v),
+    "np.putmask": lambda a, idx, v: np.putmask(a, np.array([True] * len(v)), v),
+    "np.place": lambda a, idx, v: np.place(a, np.array([True] * len(v)), v),
+}
+
+
+def setitem_seq_case(cname, uname, fault, pos, iname, cont, layout="c", rows=False):
+    """rows: the target is a 2x2 window and the sequence has one 1-d quantity array per row"""
+    idx, n = SEQ_INDEXES[iname]
+    if rows:
+        n = 2
+    ua, units = SEQ_UNITS[uname]
+    units = list(units[:n])
+    if fault is not None:
+        units[pos] = SEQ_FAULTS[fault]
+
+    def h(ctx):
+        E = Env(ctx)
+        E.must_return = fault is None and cname == "setitem"
+        a = E.view("a", ua, (2, 2) if rows else (3,), layout=layout)
+        vals = [E.view(f"v{i}", u, (2,) if rows else ()) for i, u in enumerate(units)]
+        seq = SEQ_CONTAINERS[cont](vals)
+        old, au = list(elements(a)), a.units
+        shp = a.shape
+
+        def twin():
+            return [v.in_units(au) for v in vals]
+
+        def expect(tv):
+            buf = np.empty(len(old), dtype=object)
+            buf[:] = old
+            buf = buf.reshape(shp)
+            new = np.empty(len(flat(tv)), dtype=object)
+            new[:] = flat(tv)
+            buf[idx if cname == "setitem" else slice(0, n)] = new.reshape((2, 2)) if rows else new
+            return [(list(buf.ravel()), au)]
+        slack = 0
+        if uname == "affine":
+            (sa, oa), (sb, ob) = E.rows["xta"], E.rows["xtb"]
+            slack = (abs(oa) + abs(ob * sb / sa) + abs(ob)) * 1e-6
+        E.inplace("a", lambda: SEQ_CALLS[cname](a, idx, seq), twin, expect=expect, slack=slack)
+        # the container itself is an input too
+        ctx.require("the sequence still holds the same entry objects", len(seq) == len(vals) and all(x is y for x, y in zip(seq, vals)))
+    return Case(_cid("setitem-seq", cname, cont + ("-rows" if rows else ""), uname, f"index={iname}",
+                     (f"{fault}@{pos}" if fault else "valid") + _lay_tag(layout)), h)
+
+
 # =========================================================================================== Unit arithmetic
 
 UNIT_PAIRS = [("plain", "xa", "xb"), ("otherdim", "xa", "xs"), ("compound", "xa**2/xs", "xb"), ("offset", "xta", "xa"),
@@ -1386,17 +1501,79 @@ COPIES = {"q.copy()": lambda q: q.copy(), "copy.copy": lambda q: _copy.copy(q), 
           "q.to_equivalent(same dims)": lambda q: q.to_equivalent(str(q.units), "thermal")}
 EDITS = {"imul": (lambda c: operator.imul(c, 2.0), lambda c: c * 2.0), "convert": (lambda c: c.convert_to_units("xb"), lambda c: c.in_units("xb")),
          "setitem": (lambda c: operator.setitem(c, 0, 0.0), None), "iadd": (lambda c: operator.iadd(c, c), lambda c: c + c),
-         "convert_base": (lambda c: c.convert_to_base("cgs"), lambda c: c.in_base("cgs")), "fill": (lambda c: c.fill(1.0), None)}
+         "convert_base": (lambda c: c.convert_to_base("cgs"), lambda c: c.in_base("cgs")), "fill": (lambda c: c.fill(1.0), None),
+         "out": (lambda c: np.multiply(c, 2.0, out=c), lambda c: c * 2.0), "setall": (lambda c: operator.setitem(c, Ellipsis, 0.0), None)}
 
 
-def copy_case(cname, ename, src, shape, layout="c"):
+# The ARGUMENT-SPELLING axis of the copy routes: every optional argument a copy route documents (order= of copy / np.copy / np.array /
+# astype / flatten in each of its four values, copy=True, the memo of deepcopy, units=None of to_value, equivalence=None of to /
+# in_units), passed positionally and by keyword. A route that answers one spelling with a view of its input (np.asfortranarray /
+# np.ascontiguousarray / np.asarray instead of np.copy: "no copy needed, the layout is already the one asked for") returns the
+# right numbers and leaves its input alone - only the in-place edit of the returned object that follows shows, on the ORIGINAL
+# (and on the parent under it), that the two share memory. Sources are one-dimensional (C- and Fortran-contiguous at once),
+# C-ordered and Fortran-ordered 2x2 windows, strided windows and 0-d quantities.
+_ORDERS = ("C", "F", "A", "K")
+COPY_FORMS = {}
+for _o in _ORDERS:
+    COPY_FORMS[f"q.copy('{_o}')"] = lambda q, o=_o: q.copy(o)
+    COPY_FORMS[f"q.copy(order='{_o}')"] = lambda q, o=_o: q.copy(order=o)
+    COPY_FORMS[f"np.copy(q,order='{_o}',subok=True)"] = lambda q, o=_o: np.copy(q, order=o, subok=True)
+    COPY_FORMS[f"np.copy(q,'{_o}',True)"] = lambda q, o=_o: np.copy(q, o, True)
+    COPY_FORMS[f"np.array(q,order='{_o}',subok=True)"] = lambda q, o=_o: np.array(q, order=o, subok=True)
+    COPY_FORMS[f"q.astype(dtype,'{_o}')"] = lambda q, o=_o: q.astype(q.dtype, o)
+    COPY_FORMS[f"q.astype(dtype,order='{_o}')"] = lambda q, o=_o: q.astype(q.dtype, order=o)
+    COPY_FORMS[f"q.flatten('{_o}')"] = lambda q, o=_o: q.flatten(o)
+    COPY_FORMS[f"q.flatten(order='{_o}')"] = lambda q, o=_o: q.flatten(order=o)
+COPY_FORMS.update({
+    "np.copy(q)": lambda q: np.copy(q), "np.array(q)": lambda q: np.array(q),
+    "np.array(q,copy=True,subok=True)": lambda q: np.array(q, copy=True, subok=True),
+    "q.astype(dtype,copy=True)": lambda q: q.astype(q.dtype, copy=True), "q.astype(str)": lambda q: q.astype(q.dtype.str if q.dtype != object else object),
+    "q.flatten()": lambda q: q.flatten(),
+    "q.__copy__()": lambda q: q.__copy__(), "q.__deepcopy__({})": lambda q: q.__deepcopy__({}), "copy.deepcopy(q,{})": lambda q: _copy.deepcopy(q, {}),
+    "q.to_ndarray()": lambda q: q.to_ndarray(), "q.value": lambda q: q.value, "q.v": lambda q: q.v,
+    "q.to_value()": lambda q: q.to_value(), "q.to_value(None)": lambda q: q.to_value(None), "q.to_value(units=None)": lambda q: q.to_value(units=None),
+    "q.to(units,None)": lambda q: q.to(q.units, None), "q.to(units,equivalence=None)": lambda q: q.to(q.units, equivalence=None),
+    "q.in_units(units,None)": lambda q: q.in_units(q.units, None), "q.in_units(units=)": lambda q: q.in_units(units=q.units),
+    "q.to_value(units)": lambda q: q.to_value(q.units), "q.to_value(str,None)": lambda q: q.to_value(str(q.units), None),
+    "np.repeat(q,1,axis=0)": lambda q: np.repeat(q, 1, axis=0), "np.tile(q,1)": lambda q: np.tile(q, 1),
+})
+# copy routes that are identity conversions only on a source that is already in base units
+COPY_SRC = {"q.in_base()": "m", "q.in_mks()": "m", "q.in_base('mks')": "m", "q.in_base(unit_system='mks')": "m", "q.in_cgs()": "cm",
+            "q.in_base('cgs')": "cm", "q.in_units('m')": "m", "q.to('m',None)": "m", "q.to_equivalent('m','thermal')": "m"}
+COPY_FORMS.update({
+    "q.in_base()": lambda q: q.in_base(), "q.in_mks()": lambda q: q.in_mks(), "q.in_base('mks')": lambda q: q.in_base("mks"),
+    "q.in_base(unit_system='mks')": lambda q: q.in_base(unit_system="mks"), "q.in_cgs()": lambda q: q.in_cgs(),
+    "q.in_base('cgs')": lambda q: q.in_base("cgs"), "q.in_units('m')": lambda q: q.in_units("m"), "q.to('m',None)": lambda q: q.to("m", None),
+    "q.to_equivalent('m','thermal')": lambda q: q.to_equivalent("m", "thermal"),
+})
+_UNITLESS_COPY = ("np.copy(q)", "np.array(q)", "q.to_ndarray()", "q.value", "q.v", "q.to_value")
+
+
+def _copy_want(cname, q):
+    """the numbers of q in the order the copy holds them (flatten walks a 2-d source in the order asked for)"""
+    m = re.match(r"q\.flatten\((?:order=)?'([CFAK])'\)", cname)
+    if m and q.ndim == 2 and (m.group(1) == "F" or (m.group(1) in "AK" and q.flags.f_contiguous and not q.flags.c_contiguous)):
+        return elements(q.T)
+    return elements(q)
+
+
+def copy_case(cname, ename, src, shape, layout="c", dtype=None):
+    """dtype: the source is a REAL float buffer of that type (concrete doubles in a table unit) instead of z3 terms: the branches
+    of a copy route that are taken only for float data (dtype.kind tests) are invisible to an object payload"""
     def h(ctx):
         E = Env(ctx)
-        q = E.view("q", src, shape, layout=layout)
+        if dtype:
+            q = E.concrete("q", np.array([1.5, -2.25, 3.0, 0.5][:int(np.prod(shape))]).reshape(shape), src, dtype=dtype, layout=layout)
+        else:
+            q = E.view("q", src, shape, layout=layout)
         if shape == ():
             E.track("q", q)
         E.need("xb")
-        r = E.copying(lambda: COPIES[cname](q))
+        fn = COPIES.get(cname) or COPY_FORMS[cname]
+        r = E.copying(lambda: fn(q))
+        if cname in COPY_FORMS:
+            ctx.require("catalogue sanity: this copy route is listed as valid and must return", r[0] == "ok",
+                        raised=str(r[1])[:160] if r[0] != "ok" else "")
         if r[0] != "ok":
             return
         c = r[1]
@@ -1404,17 +1581,20 @@ def copy_case(cname, ename, src, shape, layout="c"):
             ctx.require("copy of a scalar is a fresh number", True)
             return
         E.track("c", c)
-        ctx.require("the copy holds the numbers of the original", vals_close(elements(c), elements(q)), to_solver=True)
-        ctx.require("the copy has the unit of the original", unit_equiv(c.units, q.units), to_solver=True)
+        ctx.require("the copy holds the numbers of the original", vals_close(elements(c), _copy_want(cname, q)), to_solver=True)
+        if hasattr(c, "units") or not cname.startswith(_UNITLESS_COPY):
+            ctx.require("the copy has the unit of the original", hasattr(c, "units") and unit_equiv(c.units, q.units), to_solver=True)
+        ctx.require("the copy shares no memory with the original or its parent",
+                    not np.shares_memory(c, E.tracked["q^"]) and not np.shares_memory(c, q))
         ed, tw = EDITS[ename]
         if tw is None:
             old = list(elements(c))
-            cu = c.units
-            new = {"setitem": lambda: [0.0] + old[1:], "fill": lambda: [1.0] * len(old)}[ename]()
+            cu = getattr(c, "units", None)
+            new = {"setitem": lambda: [0.0] + old[1:], "fill": lambda: [1.0] * len(old), "setall": lambda: [0.0] * len(old)}[ename]()
             E.inplace("c", lambda: ed(c), lambda: None, expect=lambda _: [(new, cu)])
         else:
             E.inplace("c", lambda: ed(c), lambda: tw(c))
-    return Case(_cid("copy", cname, "then_" + ename, src, "shape" + _shape_tag(shape) + _lay_tag(layout)), h)
+    return Case(_cid("copy", cname, "then_" + ename, src, "shape" + _shape_tag(shape) + _lay_tag(layout) + (":" + dtype if dtype else "")), h)
 
 
 # =========================================================================================== integer buffers
@@ -2015,6 +2195,14 @@ def cases(tier, mods):
                 out.append(conv_case(entry, tag, src, dst, fault, sh))
             for sh, lay in (lays(2) if entry == "convert_to_units" else lays(1 if entry in ("to", "to_value") else 0, n_thorough=2)):
                 out.append(conv_case(entry, tag, src, dst, fault, sh, lay))
+        for k, entry in enumerate(CONV_SPELLINGS + [e for e in CONV_INPLACE if e != "convert_to_units"]):
+            if quick and tag in ("prefixed", "compound", "em", "dimT", "junk"):
+                continue
+            out.append(conv_case(entry, tag, src, dst, fault, (2,)))
+            if not quick:
+                out.append(conv_case(entry, tag, src, dst, fault, ()))
+                for sh, lay in lays(1):
+                    out.append(conv_case(entry, tag, src, dst, fault, sh, lay))
     for tag, src, fault in BASE_SRC:
         for entry in list(BASE_COPY) + list(BASE_INPLACE):
             for sh in shapes:
@@ -2153,6 +2341,44 @@ def cases(tier, mods):
     for vname in TYPED_SETVALS:
         for iname in ["int", "slice", "mask"]:
             out.append(typed_setitem_case(vname, iname))
+    # ---- sequences of quantities stored by one call: unit pattern x container x index kind; every fault at EVERY position
+    seq_idx, seq_cont, k = list(SEQ_INDEXES), list(SEQ_CONTAINERS), 0
+    for uname in SEQ_UNITS:
+        for cont in seq_cont:
+            for iname in seq_idx:
+                k += 1
+                if quick and k % 5 not in (0, 2):
+                    continue
+                out.append(setitem_seq_case("setitem", uname, None, 0, iname, cont))
+    for uname in ("same", "scaled"):
+        out.append(setitem_seq_case("setitem", uname, None, 0, "all", "list", rows=True))
+        out.append(setitem_seq_case("setitem", uname, None, 0, "ellipsis", "tuple", "colstrided", rows=True))
+    for fault in SEQ_FAULTS:
+        for pos in range(3):
+            for iname in seq_idx:
+                if pos >= SEQ_INDEXES[iname][1]:
+                    continue
+                for cont in seq_cont:
+                    k += 1
+                    if quick and k % 6 not in (0, 3):
+                        continue
+                    uname = ("same", "lead", "table", "scaled")[k % 4]
+                    out.append(setitem_seq_case("setitem", uname, fault, pos, iname, cont))
+            for _, lay in lays(1, dims=(1,)):
+                k += 1
+                out.append(setitem_seq_case("setitem", ("lead", "same", "table")[k % 3], fault, pos, seq_idx[k % 4], seq_cont[k % 2], lay))
+        for pos in range(2):
+            if quick and fault not in ("dimension mismatch", "bare number"):
+                continue
+            out.append(setitem_seq_case("setitem", ("same", "lead")[pos], fault, pos, "all", "list", rows=True))
+    for cname in SEQ_CALLS:
+        if cname == "setitem":
+            continue
+        for uname in ("same", "lead"):
+            out.append(setitem_seq_case(cname, uname, None, 0, "all", "list"))
+        for fault in (["dimension mismatch"] if quick else list(SEQ_FAULTS)):
+            for pos in range(3):
+                out.append(setitem_seq_case(cname, ("same", "lead", "table")[pos], fault, pos, "all", seq_cont[pos % 2]))
     # ---- Unit arithmetic
     for opname in list(UNIT_OPS) + list(UNIT_INPLACE):
         for (tag, su, sv) in UNIT_PAIRS:
@@ -2160,7 +2386,9 @@ def cases(tier, mods):
                 continue
             out.append(unit_case(opname, tag, su, sv))
     # ---- copies
-    for cname in COPIES:
+    for k, cname in enumerate(COPIES):
+        if cname != "q.to_equivalent(same dims)":
+            out.append(copy_case(cname, ["imul", "setall", "out", "fill", "iadd"][k % 5], "m", [(2,), (2, 2)][k % 2], ["c", "T"][k % 2], dtype="float64"))
         for ename in EDITS:
             if quick and ename in ("iadd", "fill", "convert_base") and cname not in ("q.copy()", "copy.deepcopy"):
                 continue
@@ -2170,6 +2398,27 @@ def cases(tier, mods):
             out.append(copy_case(cname, "imul", "xa", sh, lay))
         if not quick:
             out.append(copy_case(cname, "imul", "xa", ()))
+    # the argument-spelling axis of the copy routes x source layout, each followed by an in-place edit of the returned object
+    unitless_edits, unit_edits = ["imul", "setitem", "out", "fill", "setall", "iadd"], ["imul", "convert", "out", "setitem", "convert_base", "iadd", "fill", "setall"]
+    for k, cname in enumerate(COPY_FORMS):
+        eds = unitless_edits if cname.startswith(_UNITLESS_COPY) else unit_edits
+        srcs = [((2,), "c"), ((2, 2), "T"), ((2, 2), "c")] + ([] if quick else [((2,), "strided"), ((2, 2), "colstrided"), ((), "c"), ((2,), "rev")])
+        if quick:
+            srcs = [srcs[0], srcs[1 + k % 2]]
+        for j, (sh, lay) in enumerate(srcs):
+            ename = eds[(k + j) % len(eds)]
+            if sh == () and ename in ("setitem", "setall"):
+                ename = "imul"
+            if len(sh) == 2 and ename == "setitem":
+                ename = "setall"   # c[0] of a 2-d copy is a row
+            out.append(copy_case(cname, ename, COPY_SRC.get(cname, "xa"), sh, lay))
+        # the same route on a real float buffer (float-only branches of the copy routes)
+        for j, dt in enumerate(["float64"] if quick else ["float64", "float32"]):
+            sh, lay = [((2,), "c"), ((2, 2), "T"), ((2,), "strided")][(k + j) % 3]
+            ename = unitless_edits[(k + j) % 5]
+            out.append(copy_case(cname, "setall" if ename == "setitem" and len(sh) == 2 else ename, COPY_SRC.get(cname, "m"), sh, lay, dtype=dt))
+        if (not quick or k % 4 == 0) and cname not in COPY_SRC:
+            out.append(copy_case(cname, "imul" if cname.startswith(_UNITLESS_COPY) else "convert", "xta", (2,)))
     # ---- integer buffers (concrete typed data; symbolic unit scales wherever the call fails before arithmetic)
     for dt in (["int8", "int32", "uint16"] if quick else ["int8", "uint8", "int16", "int32", "int64", "uint16"]):
         one_byte = dt in ("int8", "uint8")
@@ -2223,5 +2472,8 @@ def cases(tier, mods):
     for c in out:
         if c.id not in ids:
             ids.add(c.id)
+            # exploration budget per case: the largest cases (2x2 windows, 512 paths) take ~15 s on a free core; on a machine shared
+            # with other checks the default 120 s was hit. A truncated exploration is reported as inconclusive, never as a pass.
+            c.budget_s = max(c.budget_s, 600.0)
             uniq.append(c)
     return uniq
